@@ -430,8 +430,11 @@ impl<F: Field + PrimeCharacteristicRing + Copy, const D: usize> AluAir<F, D> {
                             break;
                         }
                     }
+                    // A packed row carries only the last step's `out` on the bus: every
+                    // earlier step's output must be bus-silent (created here, read nowhere).
                     if contiguous
                         && Self::horner_ops_share_b_idx(preprocessed, plw, &chain[i..i + k])
+                        && Self::horner_outs_are_silent(preprocessed, plw, &chain[i..i + k - 1])
                     {
                         best_k = k;
                         break;
@@ -463,6 +466,14 @@ impl<F: Field + PrimeCharacteristicRing + Copy, const D: usize> AluAir<F, D> {
     }
 
     /// All ops in `op_indices` use the same `b` witness index in preprocessed data.
+    /// True when none of the given ops has a WitnessChecks interaction on its `out` operand.
+    fn horner_outs_are_silent(preprocessed: &[F], plw: usize, op_indices: &[usize]) -> bool {
+        op_indices.iter().all(|&idx| {
+            let p: &AluPrepLaneCols<F> = preprocessed[idx * plw..(idx + 1) * plw].borrow();
+            p.mult_out == F::ZERO
+        })
+    }
+
     fn horner_ops_share_b_idx(preprocessed: &[F], plw: usize, op_indices: &[usize]) -> bool {
         if op_indices.is_empty() {
             return true;
